@@ -10,6 +10,8 @@ namespace PV.Scc
 structure KosFacts (G : Graph) (V : List Nat) (k : Kos) : Prop where
   /-- every vertex is in the group `v_SCC` says -/
   vscc_mem : ∀ x ∈ V, ∃ g, k.sccs[vscc k.vmap x]? = some g ∧ x ∈ g
+  /-- `v_SCC[x]` never raises KeyError -/
+  lookup_some : ∀ x ∈ V, ∃ i, k.vmap.lookup x = some i
   /-- a group contains only vertices, and is the component of one of them -/
   comp : ∀ g ∈ k.sccs, ∃ r ∈ V, ∀ x, x ∈ g ↔ Mutual G x r
   nodup : ∀ g ∈ k.sccs, g.Nodup
@@ -23,12 +25,20 @@ theorem kosaraju_facts {G GT : Graph} {V : List Nat} (wf : WF G GT V) : KosFacts
   have inv := phase2_inv wf
   obtain ⟨_, hpoV, _⟩ := postOrder_facts wf
   obtain ⟨hdone, hvis, hscc, hnd, hdisj, _, horder, hvmap⟩ := inv
-  refine ⟨?_, hscc, hnd, hdisj, horder⟩
+  have key : ∀ x ∈ V, ∃ i g, (phase2 GT V (postOrder G V).reverse).vmap.lookup x = some i ∧
+      (phase2 GT V (postOrder G V).reverse).sccs[i]? = some g ∧ x ∈ g := by
+    intro x hx
+    have hxv := hdone x (List.mem_reverse.mpr ((hpoV x).mpr hx))
+    obtain ⟨g, hg, hxg⟩ := (hvis x).mp hxv
+    obtain ⟨i, hi⟩ := List.getElem?_of_mem hg
+    exact ⟨i, g, (hvmap x i).mpr ⟨g, hi, hxg⟩, hi, hxg⟩
+  refine ⟨?_, ?_, hscc, hnd, hdisj, horder⟩
+  rotate_left
+  · intro x hx
+    obtain ⟨i, _, hl, _, _⟩ := key x hx
+    exact ⟨i, hl⟩
   intro x hx
-  have hxv := hdone x (List.mem_reverse.mpr ((hpoV x).mpr hx))
-  obtain ⟨g, hg, hxg⟩ := (hvis x).mp hxv
-  obtain ⟨i, hi⟩ := List.getElem?_of_mem hg
-  have hl := (hvmap x i).mpr ⟨g, hi, hxg⟩
+  obtain ⟨i, g, hl, hi, hxg⟩ := key x hx
   refine ⟨g, ?_, hxg⟩
   show (phase2 GT V (postOrder G V).reverse).sccs[vscc (phase2 GT V (postOrder G V).reverse).vmap x]? = some g
   unfold vscc; rw [hl]; exact hi
@@ -49,7 +59,7 @@ theorem mem_iff_vscc (f : KosFacts G V k) {x i : Nat} {g : List Nat} (hx : x ∈
   · intro h; rw [h, hg] at hg'; cases hg'; exact hxg'
 
 /-- two vertices have the same group iff they reach each other -/
-theorem vscc_eq_iff (f : KosFacts G V k) (wf : WF G GT V) {x y : Nat} (hx : x ∈ V) (hy : y ∈ V) :
+theorem vscc_eq_iff (f : KosFacts G V k) {x y : Nat} (hx : x ∈ V) (hy : y ∈ V) :
     vscc k.vmap x = vscc k.vmap y ↔ Mutual G x y := by
   obtain ⟨g, hg, hxg⟩ := f.vscc_mem x hx
   obtain ⟨r, _, hr⟩ := f.comp g (List.mem_of_getElem? hg)
